@@ -2,6 +2,7 @@ import StepModel.ExpDecl
 import StepModel.ExpParseLemmas
 import StepModel.ExpDeclSynLemmas
 import StepModel.ExpEntitySynLemmas
+import StepModel.ExpStmtSynLemmas
 /-!
 # C07 — pretty-printed EXPRESS is valid, equivalent to its source and stable
 
@@ -439,6 +440,24 @@ theorem C07_entity_roundtrip (e : EntityDecl) (h : wfEntityP e) (r : List DTok) 
   have := entity_rt e.norm (wfEntity_norm e h) r
   rw [entityToks_norm] at this
   exact this
+
+/-! ### statements -/
+
+/-- **Statements: print/parse round trip at token level, independent of the line length.**  For every statement the grammar can
+build — assignment, procedure call (any number of actual parameters), RETURN with and without a value, SKIP, ESCAPE, BEGIN…END,
+IF…THEN…[ELSE…]END_IF, CASE with several labels per action and OTHERWISE, REPEAT with increment control / WHILE / UNTIL,
+ALIAS…FOR…END_ALIAS, nested to any depth — the reader following `statement` of expparse.y returns, from the tokens `STMT_out` /
+`CASEout` / `LOOPout` print, the same statement, whatever follows.  (Under the unrepaired CASEout a case action with two labels was
+printed as two actions, C07-13; under the unrepaired STMT_out an ALIAS statement lost its names, C07-15.) -/
+theorem C07_statement_roundtrip (s : Stmt) (h : wfStmt s) (r : List DTok) :
+    ∃ n0, ∀ n, n0 ≤ n → parseStmt n (stmtToks s ++ r) = some (s, r) :=
+  stmt_roundtrip s h r
+
+/-- the same for a statement list (the body of an algorithm or of a compound construct), up to the first token that cannot begin
+a statement (END_FUNCTION, END_IF, ELSE, …) -/
+theorem C07_statements_roundtrip (s : Stmt) (h : wfStmts s) (r : List DTok) (hr : startsStmt r = false) :
+    ∃ n0, ∀ n, n0 ≤ n → parseStmts n (stmtsToks s ++ r) = some (s, r) :=
+  stmts_roundtrip s h r hr
 
 /-! ## layout layer -/
 
